@@ -173,8 +173,39 @@ func Store(arr, idx, v Term) Term {
 	return app(arr.Sort, "store", arr, idx, v)
 }
 
-func Add(a, b Term) Term { return app(SInt, "+", a, b) }
-func Sub(a, b Term) Term { return app(SInt, "-", a, b) }
+func isLit(t Term) (int64, bool) {
+	if len(t.S) == 0 || len(t.S) > 15 {
+		return 0, false
+	}
+	n, err := strconv.ParseInt(t.S, 10, 64)
+	return n, err == nil
+}
+
+func Add(a, b Term) Term {
+	x, ok1 := isLit(a)
+	y, ok2 := isLit(b)
+	switch {
+	case ok1 && ok2:
+		return IntLit(x + y)
+	case ok1 && x == 0:
+		return b
+	case ok2 && y == 0:
+		return a
+	}
+	return app(SInt, "+", a, b)
+}
+
+func Sub(a, b Term) Term {
+	x, ok1 := isLit(a)
+	y, ok2 := isLit(b)
+	switch {
+	case ok1 && ok2:
+		return IntLit(x - y)
+	case ok2 && y == 0:
+		return a
+	}
+	return app(SInt, "-", a, b)
+}
 func Mul(a, b Term) Term { return app(SInt, "*", a, b) }
 func Lt(a, b Term) Term  { return app(SBool, "<", a, b) }
 func Le(a, b Term) Term  { return app(SBool, "<=", a, b) }
@@ -203,6 +234,23 @@ func quant(q string, vars []Term, body Term, patterns [][]Term) Term {
 		fmt.Fprintf(&b, "(%s %s)", v.S, v.Sort)
 	}
 	b.WriteString(") ")
+	// a trigger must be built from uninterpreted symbols only: drop triggers that mention a defined name
+	// (define-fun macros expand to store/ite terms, which solvers reject or ignore in patterns)
+	var usable [][]Term
+	for _, p := range patterns {
+		ok := true
+		for _, t := range p {
+			for _, name := range nameRe.FindAllString(t.S, -1) {
+				if _, isDef := currentDefs[name]; isDef {
+					ok = false
+				}
+			}
+		}
+		if ok {
+			usable = append(usable, p)
+		}
+	}
+	patterns = usable
 	if len(patterns) > 0 {
 		b.WriteString("(! ")
 		b.WriteString(body.S)
@@ -278,6 +326,9 @@ type Script struct {
 	defs   map[string]string
 }
 
+// currentDefs is the definition table of the script being generated (generation is single threaded).
+var currentDefs = map[string]string{}
+
 var nameRe = regexp.MustCompile(`\|[^|]*\|`)
 
 func (s *Script) defText(name string) (string, bool) {
@@ -313,6 +364,7 @@ func (s *Script) Define(hint string, t Term) Term {
 		s.defs = map[string]string{}
 	}
 	s.defs[n] = t.S
+	currentDefs = s.defs
 	return Term{n, t.Sort}
 }
 
@@ -376,4 +428,16 @@ func (s *Script) ExpandTo(t Term, checkpoint int) (Term, bool) {
 	}
 	out := expand(t.S, 0)
 	return Term{out, t.Sort}, ok
+}
+
+
+// DeclareEq introduces a constant constrained to equal t. Unlike Define the name is an uninterpreted
+// symbol, so it may appear in quantifier triggers.
+func (s *Script) DeclareEq(hint string, t Term) Term {
+	if len(t.S) < 24 && !strings.Contains(t.S, " ") {
+		return t
+	}
+	n := s.fresh(hint)
+	s.lines = append(s.lines, scriptLine{lkDecl, fmt.Sprintf("(declare-fun %s () %s)\n(assert (= %s %s))", n, t.Sort, n, t.S)})
+	return Term{n, t.Sort}
 }
